@@ -557,6 +557,50 @@ theorem declC_ok (cfg : Cfg) (fs : FS) (w : WS) (h : WInv cfg fs w) :
   · rintro ⟨c, hc, cd, hx, rfl⟩
     exact ⟨cd, (mem_allOf (·.cds) cfg fs w h cd).mpr ⟨c, hc, hx⟩, rfl⟩
 
+/-- two workspaces satisfying the invariant for the same directory and root index the same
+    files with the same file indexes -/
+theorem files_get_eq (cfg : Cfg) (fs : FS) (w1 w2 : WS) (h1 : WInv cfg fs w1) (h2 : WInv cfg fs w2)
+    (hr : w1.root = w2.root) (f : String) : w1.idx.files.get f = w2.idx.files.get f := by
+  have key : ∀ (wa wb : WS), WInv cfg fs wa → WInv cfg fs wb → wa.root = wb.root →
+      ∀ fi, wa.idx.files.get f = some fi → wb.idx.files.get f = some fi := by
+    intro wa wb ha hb hab fi hfi
+    have hm := (ha.closed f).mp (by rw [hfi]; rfl)
+    rw [hab] at hm
+    obtain ⟨fi', hfi'⟩ := Option.isSome_iff_exists.mp ((hb.closed f).mpr hm)
+    obtain ⟨c, hc, e1⟩ := ha.pinv.g.fresh f fi hfi
+    obtain ⟨c', hc', e2⟩ := hb.pinv.g.fresh f fi' hfi'
+    rw [hc] at hc'
+    simp only [Option.some.injEq] at hc'
+    rw [hfi', e2, e1, hc']
+  cases e : w1.idx.files.get f with
+  | some fi => exact (key w1 w2 h1 h2 hr fi e).symm
+  | none =>
+    cases e2 : w2.idx.files.get f with
+    | none => rfl
+    | some fi =>
+      have := key w2 w1 h2 h1 hr.symm fi e2
+      rw [e] at this; simp at this
+
+/-- repaired template code: the stored templates are a function of the directory and the root -/
+theorem pts_get_eq (cfg : Cfg) (fs : FS) (w1 w2 : WS) (h1 : WInv cfg fs w1) (h2 : WInv cfg fs w2)
+    (hr : w1.root = w2.root) (hfix : cfg.fixT = true) (p : String) :
+    w1.idx.pts.get p = w2.idx.pts.get p := by
+  rw [h1.pinv.g.idx.pts.exact hfix p, h2.pinv.g.idx.pts.exact hfix p]
+  have hcongr : ∀ f fi, (w1.idx.files.get f = some fi ∧ (fi.c.pts.get p).isSome) ↔
+      (w2.idx.files.get f = some fi ∧ (fi.c.pts.get p).isSome) := by
+    intro f fi; rw [files_get_eq cfg fs w1 w2 h1 h2 hr f]
+  cases e1 : ptRestoreVal w1.idx.files p with
+  | some t =>
+    exact ((ptRestoreVal_iff _ h2.pinv.g.idx.nodup p t).mpr
+      ((isMinTemplate_congr _ _ p hcongr t).mp ((ptRestoreVal_iff _ h1.pinv.g.idx.nodup p t).mp e1))).symm
+  | none =>
+    cases e2 : ptRestoreVal w2.idx.files p with
+    | none => rfl
+    | some t =>
+      have := (ptRestoreVal_iff _ h1.pinv.g.idx.nodup p t).mpr
+        ((isMinTemplate_congr _ _ p hcongr t).mpr ((ptRestoreVal_iff _ h2.pinv.g.idx.nodup p t).mp e2))
+      rw [e1] at this; simp at this
+
 /-! ### all components but formats (and, for the pinned code, templates) -/
 
 theorem view_ok (cfg : Cfg) (fs : FS) (w : WS) (h : WInv cfg fs w) :
